@@ -28,7 +28,11 @@ def run(unit, functions, repo, scratch, timeout=900):
             shutil.copy(p, os.path.join(copy, name))
     # the harness becomes a module of the scratch copy (never of /repo); `//! host: src/x.rs` makes it a child
     # module of that file so that it can reach the file's private items
-    shutil.copy(src, os.path.join(copy, "src", "verif_bounded.rs"))
+    with open(os.path.join(copy, "src", "verif_bounded.rs"), "w") as hf:
+        hf.write(open(src).read())
+        hf.write("\n// appended by vx/bounded.py: the case being exercised, printed by the runner's panic hook\n"
+                 "pub static VERIF_CASE: std::sync::Mutex<String> = std::sync::Mutex::new(String::new());\n"
+                 "#[allow(dead_code)]\npub fn verif_case(s: String) { if let Ok(mut g) = VERIF_CASE.lock() { *g = s; } }\n")
     host = None
     for line in open(src):
         if line.startswith("//! host:"):
@@ -63,29 +67,46 @@ def run(unit, functions, repo, scratch, timeout=900):
     open(os.path.join(runner, "Cargo.toml"), "w").write(
         '[package]\nname = "verif-bounded-runner"\nversion = "0.0.0"\nedition = "2021"\n\n[dependencies]\nslotted-egraphs = { path = "../crate" }\n\n[workspace]\n')
     open(os.path.join(runner, "src", "main.rs"), "w").write(
-        'fn main() {\n    let only: Vec<String> = std::env::args().skip(1).collect();\n    let f = slotted_egraphs::verif_bounded::run(&only);\n    for x in &f { println!("{}", x); }\n    println!("BOUNDED-DONE {}", f.len());\n}\n')
+        'fn main() {\n    let only: Vec<String> = std::env::args().skip(1).collect();\n'
+        '    std::panic::set_hook(Box::new(|info| { let c = slotted_egraphs::verif_bounded::VERIF_CASE.lock().map(|g| g.clone()).unwrap_or_default(); println!("PANICKED {} ||| case: {}", info.to_string().replace("\\n", " "), c); }));\n'
+        '    let f = slotted_egraphs::verif_bounded::run(&only);\n    for x in &f { println!("{}", x); }\n    println!("BOUNDED-DONE {}", f.len());\n}\n')
     lock = os.path.join(repo, "Cargo.lock")
     if not os.path.exists(lock):
         lock = "/repo/Cargo.lock"
     if os.path.exists(lock):
         shutil.copy(lock, os.path.join(runner, "Cargo.lock"))
     env = dict(os.environ, CARGO_NET_OFFLINE="true", CARGO_TARGET_DIR=os.path.join(root, "target"), RUSTFLAGS="-Awarnings")
-    cmd = ["cargo", "run", "--offline", "--quiet", "--"] + list(functions)
+    cmd = ["cargo", "build", "--offline", "--quiet"]
+    fails = []
+    done = True
+    note_parts = []
     try:
         p = subprocess.run(cmd, cwd=runner, env=env, stdout=subprocess.PIPE, stderr=subprocess.PIPE, text=True, timeout=timeout)
+        if p.returncode != 0:
+            return dict(ran=False, failures=[], note="bounded harness does not build against this tree: " + p.stderr[-1500:], cmd=" ".join(cmd), wall_s=round(time.time() - t0, 1))
+        exe = os.path.join(root, "target", "debug", "verif-bounded-runner")
+        # one process per function, so that a panic inside one function's checks is attributed to it
+        for fn in (list(functions) or [None]):
+            q = subprocess.run([exe] + ([fn] if fn else []), cwd=runner, stdout=subprocess.PIPE, stderr=subprocess.PIPE, text=True, timeout=timeout)
+            fdone = False
+            for line in q.stdout.split("\n"):
+                if line.startswith("FAIL "):
+                    _, f2, clause, rest = line.split(" ", 3)
+                    fails.append(dict(function=f2, clause=clause, input=rest))
+                if line.startswith("BOUNDED-DONE"):
+                    fdone = True
+            if not fdone:
+                pl = [l for l in q.stdout.split("\n") if l.startswith("PANICKED ")]
+                if pl and fn:
+                    fails.append(dict(function=fn, clause="C08:%s.no-panic" % fn.split("::")[-1], input=pl[-1][len("PANICKED "):][:600]))
+                else:
+                    done = False
+                    note_parts.append("harness aborted for %s (rc=%s): %s" % (fn, q.returncode, (q.stdout + q.stderr)[-800:]))
     except subprocess.TimeoutExpired:
         return dict(ran=False, failures=[], note="bounded harness timed out", cmd=" ".join(cmd), wall_s=time.time() - t0)
     finally:
         shutil.rmtree(os.path.join(root, "target"), ignore_errors=True)
-    fails = []
-    done = False
-    for line in p.stdout.split("\n"):
-        if line.startswith("FAIL "):
-            _, fn, clause, rest = line.split(" ", 3)
-            fails.append(dict(function=fn, clause=clause, input=rest))
-        if line.startswith("BOUNDED-DONE"):
-            done = True
-    note = "" if done else ("bounded harness did not complete (rc=%s): %s" % (p.returncode, p.stderr[-1500:]))
+    note = "; ".join(note_parts)
     return dict(ran=done, failures=fails, note=note, cmd="(cd <scratch copy of /repo + contracts/bounded/%s.rs as crate::verif_bounded>/runner && cargo run --offline -- %s)" % (unit, " ".join(functions)), wall_s=round(time.time() - t0, 1))
 
 
